@@ -473,6 +473,9 @@ func (e *Env) eval(ex ast.Expr) (SVal, error) {
 			if v, ok := e.heapVal(base.Loc + "." + ex.Sel.Name); ok {
 				return v, nil
 			}
+			if v, ok := e.structVal(base.Loc + "." + ex.Sel.Name); ok {
+				return v, nil
+			}
 			if e.St.Zero[keyBase(base.Loc)] {
 				if base.GoT != nil {
 					if st, ok := isStruct(derefType(base.GoT)); ok {
